@@ -237,7 +237,8 @@ def run_ops(model, ops, observer, F=None, on_call_end=None, prefix='C03'):
                 F.add(prefix + '.exception.' + type(e).__name__, f'solve call {ci} raised {type(e).__name__}: {e} at {loc} (step {model.pData.n})', exc=type(e).__name__, loc=loc)
         info['calls'].append({'ci': ci, 't_start': t_start, 't_end_req': t_start + op['T'], 'n0': n0, 'n1': model.pData.n, 'ended': ended})
         if on_call_end is not None:
-            on_call_end(ci, info['calls'][-1])
+            if on_call_end(ci, info['calls'][-1]) == 'break':
+                break
         if ended != 'complete':
             break
     return info
